@@ -2,3 +2,8 @@ package defn
 
 // MaxNDNPacketSize is the maximum allowed NDN packet size
 const MaxNDNPacketSize = 8800
+
+// MinMTU is the smallest face MTU accepted from management. It leaves room for the
+// largest NDNLPv2 header this forwarder attaches (sequence, fragment index and count,
+// incoming face id, PIT token, congestion mark: 54 bytes) plus some payload.
+const MinMTU = 64
